@@ -94,7 +94,8 @@ class Labels(Machine):
                        "remove_label_legal", "remove_label_illegal", "chained_selection", "non_ascii_label",
                        "labeller_array", "labeller_pointcloud", "labeller_labelled_graph", "labeller_wrong_size",
                        "labeller_via_manager", "labeller_3d", "labeller_commutes_checked",
-                       "caller_reuses_constructor_buffers", "with_labels_in_other_order") + tuple("ran_" + n for n in LABELLERS)
+                       "caller_reuses_constructor_buffers", "with_labels_in_other_order", "selection_of_nothing_refused",
+                       "add_label_with_empty_index_set", "graph_with_self_loop") + tuple("ran_" + n for n in LABELLERS)
 
     @classmethod
     def swarm(cls, rng, tier):
@@ -270,7 +271,21 @@ class Labels(Machine):
             chosen = chosen[:-1]
         return chosen
 
+    def _select_nothing(self, op, G, m):
+        """A selection that keeps no label cannot be answered with a graph (every point carries a label): it is
+        refused, the graph it was asked of is untouched (checked by the caller) and so is everything else - which
+        the operations that follow in the history find out."""
+        try:
+            R = G.with_labels([]) if op["seed"] & 32 else G.without_labels(list(m.names()))
+        except Exception:
+            self.ctx.probe("selection_of_nothing_refused")
+            self.ctx.ok()
+            return
+        self.ctx.fail("selection", "selection_of_nothing_returned_a_graph", "returned %r with labels %r" % (R, getattr(R, "labels", None)))
+
     def _op_with(self, op, G, m):
+        if op["seed"] % 16 == 5:
+            return self._select_nothing(op, G, m)
         L = self._subset(m, op["bits"], True)
         arg = L[0] if len(L) == 1 and op["seed"] & 1 else list(L)
         permuted = False
